@@ -326,7 +326,6 @@ StylesheetHandler::startElement(
                 case StylesheetConstructionContext::ELEMNAME_MESSAGE:
                 case StylesheetConstructionContext::ELEMNAME_NUMBER:
                 case StylesheetConstructionContext::ELEMNAME_VALUE_OF:
-                case StylesheetConstructionContext::ELEMNAME_WITH_PARAM:
                 case StylesheetConstructionContext::ELEMNAME_PI:
                     elem = m_constructionContext.createElement(
                                                 xslToken,
@@ -336,6 +335,35 @@ StylesheetHandler::startElement(
                     assert(elem != 0);
                     break;
           
+                case StylesheetConstructionContext::ELEMNAME_WITH_PARAM:
+                    {
+                        // xsl:with-param is only allowed as a child of
+                        // xsl:apply-templates and xsl:call-template.
+                        const int   theParentToken =
+                            m_elemStack.empty() == true ? -1 : m_elemStack.back()->getXSLToken();
+
+                        if (theParentToken != StylesheetConstructionContext::ELEMNAME_APPLY_TEMPLATES &&
+                            theParentToken != StylesheetConstructionContext::ELEMNAME_CALL_TEMPLATE)
+                        {
+                            const GetCachedString   theGuard(m_constructionContext);
+
+                            error(
+                                XalanMessageLoader::getMessage(
+                                    theGuard.get(),
+                                    XalanMessages::IsNotAllowedInThisPosition_1Param,
+                                    Constants::ELEMNAME_WITHPARAM_WITH_PREFIX_STRING),
+                                locator);
+                        }
+
+                        elem = m_constructionContext.createElement(
+                                                    xslToken,
+                                                    m_stylesheet,
+                                                    atts,
+                                                    locator);
+                        assert(elem != 0);
+                    }
+                    break;
+
                 case StylesheetConstructionContext::ELEMNAME_PARAM:
                     elem = m_constructionContext.createElement(
                                                 xslToken,
